@@ -125,6 +125,9 @@ theorem legacy_sweep_with_all_assigned (has : N → Bool) (ds : Nat → V) (name
   rw [lsweepChecked_prefix has ds names names st h]
   rfl
 
+example (ds : Nat → Nat) (st : LSt Nat Nat) :=
+  legacy_sweep_with_all_assigned (fun _ => true) ds [0, 1, 2] st (by simp)
+
 /-- **legacy_sweep_fails_at_first_unassigned** — a block without sampler makes the sweep raise
     `KeyError` exactly when that block is reached: the blocks before it (and only those) have been
     advanced, each on the joint conditioned on the then-current values; nothing after it is visited. -/
